@@ -401,3 +401,84 @@ def target_cli_purity():
 def targets():
     from . import forwarding
     return [forwarding.target_cli_wrappers(), target_cli_purity(), target_apply_filters(), target_get_mock_data(), target_get_mock_circuits(), target_parse_identity(), target_parse_command(), target_fit_command(), target_simulate(), target_drt_command("individual_plots"), target_drt_command("overlay_plot")]
+
+
+_targets_before_format = targets
+
+
+def target_format_text():
+    """format_text(df, args): the table is rendered by the pandas writer of the requested format and by nothing else -- csv and json
+    with pandas' own number formatting (shortest round-trip repr: the numbers ARE what the API returned; a precision option would
+    round them), markdown with `floatfmt=".<significant digits>g"` (the documented rounding of that format), LaTeX through the
+    styler (index hidden unless asked for); the index is written iff --output-indices; an unknown format is refused.  The real
+    function runs on a recording data frame (E3)."""
+    from pyvc import overload as O
+
+    def run(sess: Session):
+        class Styler:
+            def __init__(self, log, hidden=False):
+                self.log, self.hidden = log, hidden
+
+            def hide(self, **kw):
+                self.log.append(("style.hide", kw))
+                return Styler(self.log, True)
+
+            def to_latex(self, *a, **kw):
+                self.log.append(("style.to_latex", self.hidden, a, kw))
+                return "LATEX"
+
+        class DF:
+            def __init__(self):
+                self.log = []
+                self.style = Styler(self.log)
+
+            def to_csv(self, *a, **kw):
+                self.log.append(("to_csv", a, kw))
+                return "CSV"
+
+            def to_json(self, *a, **kw):
+                self.log.append(("to_json", a, kw))
+                return "JSON"
+
+            def to_markdown(self, *a, **kw):
+                self.log.append(("to_markdown", a, kw))
+                return "MD"
+        ns = {}
+        O.load("cli/utility", ["format_text", "get_text_extension", "validate_text_format"], ns)
+        fmt = ns["format_text"]
+        for name, ext in (("csv", "csv"), ("json", "json"), ("md", "md"), ("markdown", "md"), ("tex", "tex"), ("latex", "tex")):
+            for idx in (False, True):
+                df = DF()
+                args = type("A", (), {"output_format": name, "output_indices": idx, "output_significant_digits": 7})()
+                try:
+                    out = fmt(df, args)
+                except Exception as ex:       # noqa: BLE001
+                    out = f"raised {type(ex).__name__}"
+                tag = f"[{name}, indices={idx}]"
+                if ext == "csv":
+                    ok = df.log == [("to_csv", (), {"index": idx})] and out == "CSV"
+                    what = "DataFrame.to_csv(index=<output_indices>) and no formatting option"
+                elif ext == "json":
+                    ok = df.log == [("to_json", (), {})] and out == "JSON"
+                    what = "DataFrame.to_json() and no precision option"
+                elif ext == "md":
+                    ok = df.log == [("to_markdown", (), {"index": idx, "floatfmt": ".7g"})] and out == "MD"
+                    what = "DataFrame.to_markdown(index=<output_indices>, floatfmt='.<significant digits>g')"
+                else:
+                    ok = (df.log == [("style.to_latex", False, (), {})] if idx else df.log == [("style.hide", {"axis": "index"}), ("style.to_latex", True, (), {})]) and out == "LATEX"
+                    what = "the styler's to_latex(), index hidden unless asked for"
+                ob = sess.check("post", [], z3.BoolVal(ok), 0, label=f"format_text{tag} is {what}")
+                if not ok:
+                    ob.detail = f"calls {df.log!r} -> {out!r}"
+        df = DF()
+        try:
+            fmt(df, type("A", (), {"output_format": "html", "output_indices": False, "output_significant_digits": 7})())
+            refused = False
+        except Exception:       # noqa: BLE001
+            refused = not df.log
+        sess.check("post", [], z3.BoolVal(refused), 0, label="format_text refuses an unknown format without writing anything")
+    return ("cli/utility:format_text", "cli/utility", "format_text", run)
+
+
+def targets():      # noqa: F811
+    return _targets_before_format() + [target_format_text()]
